@@ -9,7 +9,7 @@
    sk_run result satisfies it: CpcProofs.run_inv).  kxp / hip_est_accum are 64-bit patterns taken from the object. *)
 From Coq Require Import NArith List Bool Lia Arith.
 From DS Require Import Word Murmur3 RunnerLib CpcDefs CpcCodecDefs CpcFlavorDefs CpcTableProofs CpcSketchInv CpcProofs.
-From DS Require Import CpcImageDefs CpcImageProofs CpcImageProofs2.
+From DS Require Import CpcImageDefs CpcImageProofs CpcImageProofs2 CpcImageClosed.
 Import ListNotations.
 Local Open Scope N_scope.
 
@@ -70,6 +70,25 @@ Proof. exact sketch_roundtrip. Qed.
 
 (* a restored sketch (same scalar fields and window, a valid table with the same set of pairs) satisfies the invariant
    with the same history: it is the same coupon bit matrix, hence indistinguishable and fully functional *)
+(* THE closed round trip: for every reachable sketch (any flavor), deserialize(serialize s) through BOTH readers returns a
+   sketch with the same fields, window, offset and table set, representing the same coupon history and bit matrix; the
+   stream reader consumes exactly the image, the bytes reader refuses trailing bytes. No premise about the compressor is
+   left (CpcFlavorProofs.flavor_codec_rt); the two table bounds exclude only SLIDING sketches with > 48K surprising values *)
+Theorem C09_cpc_serialize_deserialize : forall l s hist kxp hip b,
+  SInv l s hist -> 4 <= l <= 26 -> kxp < two64 -> hip < two64 ->
+  4 * t_num (table s) <= 3 * 2 ^ (6 + l) -> t_num (table s) <= 2 ^ 26 ->
+  enc s kxp hip = Some b ->
+  exists t',
+    let s' := mkS l (seed s) (merged s) (ncoup s) t' (window s) (woff s) (fic s) in
+    let kxp' := if negb (merged s) && negb (ncoup s =? 0) then kxp else kxp_empty l in
+    let hip' := if negb (merged s) && negb (ncoup s =? 0) then hip else 0 in
+    dec_bytes (seed s) b = Some (s', kxp', hip') /\
+    (forall rest, dec_stream (seed s) (b ++ rest) = Some (s', kxp', hip', rest)) /\
+    (forall rest, rest <> [] -> dec_bytes (seed s) (b ++ rest) = None) /\
+    (forall y, In y (t_items t') <-> In y (t_items (table s))) /\
+    SInv l s' hist /\ build_bit_matrix s' = Some (spec_matrix l hist) /\ build_bit_matrix s = Some (spec_matrix l hist).
+Proof. exact serialize_deserialize_closed. Qed.
+
 Theorem C09_cpc_restored_matrix : forall l s hist t', SInv l s hist -> TInv t' ->
   (forall y, In y (t_items t') <-> In y (t_items (table s))) ->
   let s' := mkS l (seed s) (merged s) (ncoup s) t' (window s) (woff s) (fic s) in
@@ -151,6 +170,7 @@ Print Assumptions C09_cpc_image_reserialize_bytes.
 Print Assumptions C09_cpc_image_reserialize_stream.
 Print Assumptions C09_cpc_sketch_image_wf.
 Print Assumptions C09_cpc_sketch_roundtrip.
+Print Assumptions C09_cpc_serialize_deserialize.
 Print Assumptions C09_cpc_restored_matrix.
 Print Assumptions C09_cpc_sketch_image_size.
 Print Assumptions C09_cpc_header_form.
